@@ -129,3 +129,25 @@ Theorem C12_compress_old_refuted :
   sm2_Gx <> sm2_Gy.
 Proof. exact compress_old_refuted. Qed.
 Print Assumptions C12_compress_old_refuted.
+
+(* wave 5: sm2_z256_point_set_xy, scalar generation *)
+Theorem C12_set_xy_ok_iff : forall Pin x y, 0 <= x -> 0 <= y ->
+  fst (point_set_xy ZOps Z.ltb KpZ Pin x y) = 1 <->
+  x < c_p /\ y < c_p /\ (y * y) mod c_p = (x * x * x + sm2_a * x + sm2_b) mod c_p.
+Proof. exact set_xy_ok_iff. Qed.
+Print Assumptions C12_set_xy_ok_iff.
+
+(* sm2_z256_rand_range returns 1 only with a drawn value below the range *)
+Theorem C12_rand_range_spec : forall tries range draws r0 ret r rest,
+  rand_range_loop ZOps Z.ltb tries range draws r0 = (ret, r, rest) ->
+  (ret = 1 /\ r < range /\ In (Some r) draws) \/ (ret = 0) \/ (ret = -1).
+Proof. exact rand_range_spec. Qed.
+Print Assumptions C12_rand_range_spec.
+
+(* sm2_key_generate returns only scalars in [1, n-2] *)
+Theorem C12_key_generate_range : forall fuel draws d0 d,
+  key_generate_loop ZOps Z.ltb KpZ fuel (c_n - 1) draws d0 = (1, d) ->
+  (forall v, In (Some v) draws -> 0 <= v) ->
+  1 <= d <= c_n - 2.
+Proof. exact key_generate_range. Qed.
+Print Assumptions C12_key_generate_range.
